@@ -16,7 +16,7 @@
       emitted      every STREAM frame ever returned by popStreamFrame, in order
       emittedNew   those of them that carried new data (not retransmissions)
       late         the reliable size was raised on an already reset stream: enableResetStreamAt()
-                   (from false to true) or SetReliableBoundary() after CancelWrite/STOP_SENDING
+                   going from false to true after CancelWrite/STOP_SENDING
       panicked     the code would have panicked ("numOutStandingFrames negative") *)
 From Coq Require Import List ZArith Bool Lia.
 From V Require Import Gen.Params Lib.Hex Wire.Varint.
@@ -175,7 +175,8 @@ Definition canBuffer (s : state) : bool := nfLen s + zlen (dataForWriting s) <=?
 
 (* one iteration of the loop in write(); [first] = the iteration of the call itself *)
 Definition write_iter (first : bool) (s : state) : state * out :=
-  if canBuffer s && (0 <? zlen (dataForWriting s)) then
+  (* the buffering branch is only taken while the stream is neither reset nor shut down (repair C01-write-buffered-after-reset) *)
+  if negb (isSome (resetErr s)) && negb (shutdown s) && canBuffer s && (0 <? zlen (dataForWriting s)) then
     let nf := match nextFrame s with
               | None => Some (writeOffset s, dataForWriting s)
               | Some (o, d) => Some (o, d ++ dataForWriting s)
@@ -269,7 +270,9 @@ Definition finish_new (maxDataLen r : Z) (more : bool) (s1 : state) (f0 : frame)
     if dl =? maxDataLen then
       let (s3, b) := isNewlyBlocked s2 in (s3, if b then Some (writeOffset s3) else None)
     else (s2, None) in
-  let fin := finishedWriting s3 && isNil (dataForWriting s3) && negb (isSome (nextFrame s3)) && negb (finSent s3) in
+  (* no FIN on new data once the stream was reset (repair C01-fin-on-truncated-frame) *)
+  let fin := finishedWriting s3 && isNil (dataForWriting s3) && negb (isSome (nextFrame s3)) && negb (finSent s3)
+             && negb (isSome (resetErr s3)) in
   let s4 := if fin then set_finSent true s3 else s3 in
   let f := mkF (f_off f0) (f_data f0) fin in
   (emit true f s4, mkOut (Some f) blocked more2 None 0 None 0 0 0).
@@ -334,8 +337,9 @@ Definition do_lost (i : nat) (s : state) : state * out :=
         if isSome (resetErr s1) && (0 <? r) && (f_off f >=? r) then
           let (s2, c) := newly_completed s1 in (s2, out_done c)
         else
+          (* a truncated frame loses its FIN (repair C01-fin-on-truncated-frame) *)
           let f' := if isSome (resetErr s1) && (0 <? r) && (f_end f >? r)
-                    then mkF (f_off f) (zfirstn (r - f_off f) (f_data f)) (f_fin f) else f in
+                    then mkF (f_off f) (zfirstn (r - f_off f) (f_data f)) false else f in
           (set_retransQ (retransQ s1 ++ [f']) s1, mkOut None None false None 0 None 1 0 0)
   end.
 
@@ -343,7 +347,7 @@ Definition do_lost (i : nat) (s : state) : state * out :=
 Definition trunc_queue (r : Z) (q : list frame) : list frame :=
   flat_map (fun f => if f_off f >=? r then []
                      else if f_end f <=? r then [f]
-                     else [mkF (f_off f) (zfirstn (r - f_off f) (f_data f)) (f_fin f)]) q.
+                     else [mkF (f_off f) (zfirstn (r - f_off f) (f_data f)) false]) q.
 
 Definition do_cancel (code : Z) (s : state) : state * out :=
   if shutdown s then (s, out0)
@@ -402,8 +406,10 @@ Definition do_rlost (i : nat) (s : state) : state * out :=
   end.
 
 (** ** the rest *)
+(* SetReliableBoundary is a no-op once the stream was reset (repair C04-set-reliable-boundary-after-reset-panic) *)
 Definition do_rel (s : state) : state * out :=
-  (set_reliableSize (writeOffset s + nfLen s) (set_late (late s || isSome (resetErr s)) s), out0).
+  if isSome (resetErr s) then (s, out0)
+  else (set_reliableSize (writeOffset s + nfLen s) s, out0).
 
 Definition do_enable (s : state) : state * out :=
   (set_supportsRSA true (set_late (late s || (isSome (resetErr s) && negb (supportsRSA s))) s), out0).
